@@ -49,7 +49,7 @@ DEVIATIONS = {
     "clean_last_get_expiry": ({}, True),
     "clean_inclusive": ({}, True),                 # !After instead of Before
     "get_inclusive": ({}, True),                   # !Before instead of After
-    "get_first_seen": ({}, True),
+    "get_first_seen": (dict(Expiries="={1, 2}"), True),
     "get_cutoff_at_eval": ({}, False),             # cutoff computed by the manager, not by the caller
     "unsorted": ({}, True),
 }
@@ -81,7 +81,8 @@ def model_check(ctx):
         big.append(("mc_1p_3adds", "BadMetrics_mc.cfg", consts(MaxAdds=3, Witness=True), 2))
         big.append(("mc_2p_3adds", "BadMetrics_mc.cfg", consts(Names="={1}", Producers=TWO, MaxAdds=3, MaxGets=1, Expiries="={2}",
                                                               Timely=False, Witness=True), 2))
-        big.append(("mc_2p_2names", "BadMetrics_mc.cfg", consts(Producers=TWO, MaxGets=2, MaxTime=2, Expiries="={1, 2}", Witness=True), 2))
+        big.append(("mc_2p_2names", "BadMetrics_mc.cfg", consts(Producers=TWO, MaxAdds=3, MaxGets=1, MaxTime=2, Expiries="={1, 2}", Witness=True), 2))
+        big.append(("mc_2p_2gets", "BadMetrics_mc.cfg", consts(Producers=TWO, MaxGets=2, MaxTime=2, Expiries="={1, 2}", Witness=True), 2))
         big.append(("mc_late_ticks", "BadMetrics_mc.cfg", consts(Timely=False, MaxTime=4, Expiries="={1, 4}", Witness=True), 2))
         big.append(("mc_age2_cap2", "BadMetrics_mc.cfg", consts(MaxAge=2, Cap=2, MaxAdds=3, MaxGets=1, MaxTime=4, Expiries="={2, 5}",
                                                                Witness=True), 2))
@@ -227,14 +228,12 @@ class ExecGen:
             prime += [dict(k=0, name="", text="%s.ok %d %d" % (self.base, j, 100 + j), reason="", gap=0) for j in range(3)]
             self.phases.append(dict(t="par", prods=[prime], readers=[]))
         single = shape == "single"
-        self.par(1 if single else rng.randint(2, 4), rng.randint(3, 6), rng.randint(0, 2), 3)
-        self.barrier()
-        self.gets(rng.randint(2, 4))
-        if rng.random() < 0.8:
-            self.phases.append(dict(t="sleep", us=rng.choice([3000, 12000, 30000, 60000, self.maxage_us // 3])))
-        self.par(1 if single or rng.random() < 0.3 else rng.randint(2, 3), rng.randint(2, 5), rng.randint(0, 2), 3)
-        self.barrier()
-        self.gets(rng.randint(3, 5))
+        for rnd in range(rng.randint(2, 3)):
+            if rnd and rng.random() < 0.8:
+                self.phases.append(dict(t="sleep", us=rng.choice([3000, 12000, 30000, 60000, self.maxage_us // 3])))
+            self.par(1 if single or (rnd and rng.random() < 0.25) else rng.randint(2, 4), rng.randint(3, 8), rng.randint(0, 2), 3)
+            self.barrier()
+            self.gets(rng.randint(2, 5))
         if shape == "full":
             late = [[dict(self.new_add(), gap=0) for _ in range(rng.randint(1, 2))] for _ in range(rng.randint(2, 4))]
             self.phases.append(dict(t="full", fillname=self.fill, late=late, wait_us=rng.choice([20000, 40000])))
@@ -372,6 +371,9 @@ def validate(ctx, blocks, tag="tr", own_dir=None, diag=False):
             break
         if diag:
             raise Machinery("the diagnostic run did not accept the whole trace; log %s" % res["log"])
+        if len(rej) >= 5:
+            ctx.note("chunk %s: validation stopped after 5 rejected executions (%d executions not decided)" % (tag, len(blocks)))
+            return 0, rej, counts
         pos = 0
         for bi, b in enumerate(blocks):
             if matched < pos + len(b):
@@ -414,11 +416,16 @@ def diagnose(ctx, block, idx, n):
 def run(ctx):
     q = ctx.quick()
     rng = random.Random(ctx.seed)
-    model_check(ctx)
     insts, gens = build_scenarios(ctx, rng)
     sf = ctx.write_ndjson("xb_scen.ndjson", insts)
     rf = os.path.join(ctx.out, "xb_result.ndjson")
-    res = ctx.go_test("bad", run="^TestBad$", timeout=ctx.pick(600, 2400), expect_ok=False, env=dict(VERIF_XB_SCEN=sf, VERIF_XB_RESULT=rf))
+    # the driver runs while TLC model-checks: nothing it records depends on how fast it is scheduled
+    with ThreadPoolExecutor(max_workers=2) as ex:
+        fm = ex.submit(model_check, ctx)
+        fd = ex.submit(ctx.go_test, "bad", run="^TestBad$", timeout=ctx.pick(600, 2400), expect_ok=False,
+                       env=dict(VERIF_XB_SCEN=sf, VERIF_XB_RESULT=rf))
+        fm.result()
+        res = fd.result()
     if res["rc"] != 0:
         if "panic:" in res["text"] or "fatal error:" in res["text"]:
             ctx.violation("badmetrics-panics", "the bad-metrics manager / table / web handler panicked", dict(tail=res["text"][-3000:]))
@@ -550,7 +557,8 @@ def selftest(ctx, good, gens, strict=True):
             if r["ev"] == "get" and r["why"] == "gets":
                 for j, x in enumerate(r["res"]):
                     prev = [c for c in range(len(h["n"])) if h["n"][c] == x[0] and h["a1"][c] < h["a0"][x[1] - 1]]
-                    if prev:
+                    # (another record of the answer proves that the last one had been consumed)
+                    if prev and any(h["a1"][x[1] - 1] < h["a0"][y[1] - 1] for y in r["res"]):
                         c = prev[-1]
                         b2 = copy(b)
                         b2[i]["res"][j] = [x[0], c + 1, h["rs"][c], h["a0"][c], h["a1"][c]]
